@@ -231,7 +231,13 @@ def _contains_any(term, consts_ids, funcs_names):
                     return True
                 if d.arity() > 0 and d.name() in funcs_names:
                     return True
-                # Σ-functions: look into their definition bodies is unnecessary: parameters are explicit args
+                # Σ-functions: free constants of the summand are explicit arguments, but function symbols (array contents) stay
+                # inside the λ-lifted body: look into the definition
+                if d.arity() > 0 and funcs_names:
+                    from . import sigma as _sigma
+                    sd = _sigma.BY_DECL.get(d.name())
+                    if sd is not None:
+                        stack.append(sd.body)
             stack.extend(e.children())
     return False
 
@@ -321,6 +327,7 @@ def _symbolic_for(interp, s, frame, state, space):
             raise EngineError("loop body has no normal path")
         return _summarise_multi(interp, s, frame, st, lo, hi, item_fn, normal, i, scal_h, pre_env, pre_heap, where)
     fr1, st1 = normal[0]
+    st_nh = st1     # post-state of the dry run from the un-havocked pre-heap (content after one iteration as a function of the pre content)
     touched = sorted({sid for sid in st1.heap if sid in pre_heap and st1.heap[sid] is not pre_heap[sid]})
     heap_h = dict(pre_heap)
     arr_h = {}
@@ -353,15 +360,60 @@ def _symbolic_for(interp, s, frame, state, space):
     iz = i.t
     summary_env = {}
     summary_heap = {}
-    # ---- scalars
-    for name in modified:
-        if name in target_names:
-            continue
-        post = fr1.env.get(name, _MISSING)
-        if post is _MISSING:
-            continue
-        pre = pre_env.get(name, _MISSING)
-        summary_env[name] = _summarise_value(interp, name, pre, post, env_h.get(name, _MISSING), iz, lo, hi, hv_consts, hv_funcs, st1)
+    # ---- staged summarisation: every loop-carried scalar / array cell gets a closed form from the havocked dry run; a cell whose
+    # effect mentions the havocked content of *another* carried cell (e.g. a value stored at the position given by a counter) is
+    # retried after a new dry run in which the already summarised cells hold their closed form at iteration i instead of a havoc.
+    # (The closed forms are candidates only: init/step obligations below check all of them together.)
+    pend_scal = [n for n in modified if n not in target_names]
+    pend_arr = list(arr_h)
+    fr_c, st_c = fr1, st1
+    for _stage in range(6):
+        errors = []
+        progress = False
+        for name in list(pend_scal):
+            post = fr_c.env.get(name, _MISSING)
+            if post is _MISSING:
+                pend_scal.remove(name)
+                continue
+            pre = pre_env.get(name, _MISSING)
+            try:
+                summary_env[name] = _summarise_value(interp, name, pre, post, env_h.get(name, _MISSING), iz, lo, hi, hv_consts, hv_funcs, st_c)
+            except EngineError as e:
+                errors.append(e)
+                continue
+            pend_scal.remove(name)
+            progress = True
+        for sid in list(pend_arr):
+            shape, dt, hfn = arr_h[sid]
+            idx = tuple(sv.fresh_int("x") for _ in shape)
+            postv = st_c.heap[sid].data(idx)
+            prev = hfn(idx)
+            try:
+                summary_heap[sid] = _summarise_array(sid, shape, dt, idx, prev, postv, iz, lo, hi, hv_consts, hv_funcs, pre_heap,
+                                                     nohavoc_post=(st_nh.heap[sid].data if st_nh is not None and sid in st_nh.heap else None))
+            except EngineError as e:
+                errors.append(e)
+                continue
+            pend_arr.remove(sid)
+            progress = True
+        if not errors:
+            break
+        if not progress or other_touched:
+            raise errors[0]
+        env2, heap2 = dict(env_h), dict(heap_h)
+        for name, summ in summary_env.items():
+            if summ[0] == "sum":
+                env2[name] = _instantiate(summ, i, iz, lo, pre_env.get(name, _MISSING))
+        for sid, summ in summary_heap.items():
+            heap2[sid] = summ(i)
+        outs = run_body(env2, heap2, i, [])
+        normal = [(fr, st2) for fr, st2, out in outs if out[0] in ("normal", "continue")]
+        if len(normal) != 1:
+            raise errors[0]
+        fr_c, st_c = normal[0]
+    else:
+        raise errors[0]
+    fr1, st1 = fr_c, st_c
     # the loop target keeps its last value
     for name in target_names:
         if name in fr1.env:
@@ -370,13 +422,6 @@ def _symbolic_for(interp, s, frame, state, space):
                 summary_env[name] = ("last", post)
             else:
                 summary_env[name] = ("last_obj", post)
-    # ---- arrays
-    for sid, (shape, dt, hfn) in arr_h.items():
-        idx = tuple(sv.fresh_int("x") for _ in shape)
-        post_fn = st1.heap[sid].data
-        postv = post_fn(idx)
-        prev = hfn(idx)
-        summary_heap[sid] = _summarise_array(sid, shape, dt, idx, prev, postv, iz, lo, hi, hv_consts, hv_funcs, pre_heap)
     for sid in other_touched:
         summary_heap[sid] = _summarise_cell(interp, sid, pre_heap[sid], heap_h, st1, iz, lo, hi, hv_consts, hv_funcs)
     # ---- build state(k) and check init / step
@@ -557,7 +602,7 @@ def _instantiate(summ, k, iz, lo, pre):
     kind = summ[0]
     if kind == "sum":
         delta = summ[1]
-        return sv.add(pre, Sum(lo, k, lambda t: _subst_val(delta, [(iz, sv.znum(t))])))
+        return sv.add(pre, _iter_sum(lo, k, delta, iz, []))
     if kind == "last":
         # value produced by iteration k-1
         return _subst_val(summ[1], [(iz, sv.znum(A.simp(sv.sub(k, 1))))])
@@ -566,7 +611,16 @@ def _instantiate(summ, k, iz, lo, pre):
     raise EngineError(kind)
 
 
-def _summarise_array(sid, shape, dt, idx, prev, postv, iz, lo, hi, hv_consts, hv_funcs, pre_heap):
+def _iter_sum(lo, k, delta, iz, pairs):
+    """sum_{t=lo}^{k-1} delta[i:=t]  for a loop summary state(k), lo <= k (k ranges over lo, the iteration variable, its successor, hi).
+    A summand that does not depend on the iteration is summed in closed form: delta * (k - lo)  (constant sum, valid for k >= lo)."""
+    if not any(_mentions(t, iz) for t in _terms_of(delta)):
+        d = _subst_val(delta, pairs) if pairs else delta
+        return sv.mul(d, A.simp(sv.sub(k, lo)))
+    return Sum(lo, k, lambda t: _subst_val(delta, pairs + [(iz, sv.znum(t))]))
+
+
+def _summarise_array(sid, shape, dt, idx, prev, postv, iz, lo, hi, hv_consts, hv_funcs, pre_heap, nohavoc_post=None):
     """closed form for the content of an array cell after k iterations"""
     pre_fn = pre_heap[sid].data
     meta = pre_heap[sid].meta
@@ -580,7 +634,7 @@ def _summarise_array(sid, shape, dt, idx, prev, postv, iz, lo, hi, hv_consts, hv
         def at(k):
             def fn(ix, k=k):
                 pairs = [(a, sv.znum(b)) for a, b in zip(idz, ix)]
-                return sv.add(pre_fn(ix), Sum(lo, k, lambda t: _subst_val(delta, pairs + [(iz, sv.znum(t))])))
+                return sv.add(pre_fn(ix), _iter_sum(lo, k, delta, iz, pairs))
             return Content("arr", A._memo(fn), meta)
         return at
     # (2) scatter store: post = ite(cond(i, idx), e(i, idx), prev) with cond selecting idx_k == g_k(i) on some axes
@@ -602,6 +656,29 @@ def _summarise_array(sid, shape, dt, idx, prev, postv, iz, lo, hi, hv_consts, hv
                         return ite(sv.wrap(z3.simplify(c)), v, lambda: pre_fn(ix))
                     return Content("arr", A._memo(fn), meta)
                 return at
+    # (3) in-place map of disjoint regions: A[g(i), ...] = f(A[g(i), ...]) — every cell is written by at most one iteration and an
+    # iteration reads only cells no earlier iteration wrote.  Candidate from the dry run on the *un-havocked* pre content:
+    # post = ite(cond(i, idx), val(i, idx; pre content), pre)  =>  state(k) = ite(writer(idx) in [lo,k) and residual, val(writer), pre).
+    # (candidate only: the step obligation checks it, including the "reads no written cell" part)
+    if nohavoc_post is not None:
+        pre_v = pre_fn(idx)
+        dec = _decompose_store(nohavoc_post(idx), pre_v)
+        if dec is not None:
+            cond, val = dec
+            if not any(_contains_any(t, hv_consts, hv_funcs) for t in _terms_of(val) + [cond]):
+                sol = _solve_writer(cond, iz, idz)
+                if sol is not None:
+                    w, residual = sol
+
+                    def at(k):
+                        def fn(ix, k=k):
+                            pairs = [(a, sv.znum(b)) for a, b in zip(idz, ix)]
+                            wk = z3.simplify(z3.substitute(w, *pairs))
+                            c = z3.And(wk >= sv.znum(lo), wk < sv.znum(k), z3.substitute(residual, *pairs))
+                            v = _subst_val(_subst_val(val, [(iz, w)]), pairs)
+                            return ite(sv.wrap(z3.simplify(c)), v, lambda: pre_fn(ix))
+                        return Content("arr", A._memo(fn), meta)
+                    return at
     raise EngineError(f"array #{sid}: loop effect is neither an accumulation nor an affine scatter store — needs a written summary")
 
 
